@@ -1,8 +1,64 @@
 (* Properties/C06.v — pinned statements only. *)
-From Boreal Require Import Base.Prelude Base.Res Model.Eval Spec.CondSem Proofs.EvalProofs.
+From Boreal Require Import Base.Prelude Base.Res Model.Eval Spec.CondSem Proofs.LoopProofs Proofs.NoScanProofs.
 
-Theorem C06_placeholder_undefined_rule_does_not_match :
-  forall en c, eval en None [] c = Undef -> eval_rule en c = Ok false.
-Proof. exact eval_rule_undef. Qed.
+(* The evaluation pass done before the string scan (no matches available) is sound: for every
+   well-formed condition, whatever it answers other than "matches needed" is what the evaluation with
+   the matches M answers, for every M; and the latter never panics. *)
+Theorem C06_no_scan_sound :
+  forall (M : list (list smatch)) prev ext fsz mem e sel stack,
+    wf_expr ext (length M) (length prev) e = true -> sel_ok M sel -> stack_ok stack ->
+    let r0 := eval (en0 prev ext fsz mem) sel stack e in
+    let rM := eval (enM M prev ext fsz mem) sel stack e in
+    (r0 = Needed \/ r0 = rM) /\ rM <> Panic.
+Proof. exact (fun M prev ext fsz mem e => no_scan_sound M prev ext fsz mem e). Qed.
 
-Print Assumptions C06_placeholder_undefined_rule_does_not_match.
+Theorem C06_no_scan_rule_verdict :
+  forall (M : list (list smatch)) prev ext fsz mem cond b,
+    wf_expr ext (length M) (length prev) cond = true ->
+    eval_rule (en0 prev ext fsz mem) cond = Ok b ->
+    eval_rule (enM M prev ext fsz mem) cond = Ok b.
+Proof. exact no_scan_rule_verdict. Qed.
+
+(* the connectives and quantifier accumulators are monotone in the refinement order *)
+Theorem C06_and_monotone :
+  forall rs0 rsM, Forall2 rel rs0 rsM ->
+    refines (and_loop false rs0) (and_loop false rsM) /\ and_loop false rsM <> Panic.
+Proof. exact (fun rs0 rsM H => and_loop_refines rs0 rsM H false false (fun x => x)). Qed.
+
+Theorem C06_or_monotone :
+  forall rs0 rsM, Forall2 rel rs0 rsM ->
+    refines (or_loop false rs0) (or_loop false rsM) /\ or_loop false rsM <> Panic.
+Proof. exact (fun rs0 rsM H => or_loop_refines rs0 rsM H false false (fun x => x)). Qed.
+
+Theorem C06_for_monotone :
+  forall fs rs0 rsM, Forall2 rel rs0 rsM -> (forall n, fs = FNum n -> 1 <= n) ->
+    refines (for_loop fs 0 rs0) (for_loop fs 0 rsM) /\ for_loop fs 0 rsM <> Panic.
+Proof. exact for_loop_refines. Qed.
+
+Theorem C06_for_list_monotone :
+  forall fs l0 lM, Forall2 irel l0 lM -> (forall n, fs = FNum n -> 1 <= n) ->
+    refines (list_loop fs 0 l0) (list_loop fs 0 lM) /\ list_loop fs 0 lM <> Panic.
+Proof. exact list_loop_refines. Qed.
+
+(* the pinned tree (before fix 571ee8b) answered Undef for an undefined list element even when earlier
+   bodies were undecided: the refinement fails on `for any i in (0, uint8(1000)) : ($a at i)` *)
+Theorem C06_pinned_list_iterator_refuted :
+  exists l0 lM, Forall2 irel l0 lM /\
+    ~ refines (list_loop_pinned (FNum 1) 0 l0) (list_loop_pinned (FNum 1) 0 lM).
+Proof. exact list_loop_pinned_refuted. Qed.
+
+(* non-vacuity: a condition with undecided and decided operands *)
+Example C06_example :
+  let e := EOr [EVar (Some 0%nat); EBin OEq (EInt 1) (EInt 1)] in
+  wf_expr [] 1 0 e = true
+  /\ eval (en0 [] [] (Some 3) (Some [97; 98; 99])) None [] e = Ok (VBool true)
+  /\ eval (enM [[]] [] [] (Some 3) (Some [97; 98; 99])) None [] e = Ok (VBool true).
+Proof. vm_compute. repeat split. Qed.
+
+Print Assumptions C06_no_scan_sound.
+Print Assumptions C06_no_scan_rule_verdict.
+Print Assumptions C06_and_monotone.
+Print Assumptions C06_or_monotone.
+Print Assumptions C06_for_monotone.
+Print Assumptions C06_for_list_monotone.
+Print Assumptions C06_pinned_list_iterator_refuted.
